@@ -251,6 +251,8 @@ func (c07) Gen(rng *rand.Rand, tier string, emit func(string)) {
 			emit("hist " + strings.Join(ops, " "))
 		}
 	}
+	// concurrent use (c07_conc.go): called last, so that the cases above keep their PRNG draws
+	c07GenConc(rng, tier, emit)
 }
 
 func c07Dump(objs map[string]*obiseq.BioSequence, names []string) map[string]string {
@@ -324,6 +326,9 @@ func (c07) Exec(c string) (string, []Fail) {
 		fails = append(fails, Fail{Sig: sig, Text: fmt.Sprintf(format, a...)})
 	}
 	stat("op:" + f[0])
+	if f[0] == "conc" {
+		return c07ExecConc(f)
+	}
 	res := guardT(5*time.Second, func() string {
 		switch {
 		case f[0] == "comp" && len(f) == 2:
